@@ -1,13 +1,19 @@
-(* Model/Range.v -- S3RangeFile (storage_backend.py:405-508): a seekable reader issuing ranged GETs,
-   and the plain local file it must be indistinguishable from.
+(* Model/Range.v -- S3RangeFile (storage_backend.py): a seekable reader issuing ranged GETs, and the plain
+   local file it must be indistinguishable from.
 
-   rf_step   : S3RangeFile.seek / tell / readinto / readall over an object `content`; every ranged GET is
-               logged as (first, last) and answered by `server_range` (what S3 / fakes3 answer to
-               Range: bytes=first-last: the bytes first..min(last,size-1), or 416 when first >= size).
-   file_step : an unbuffered local file (io.FileIO) on the same content.
-   The functions seek / readinto / readall are pinned by golden AST digests in translator/gen_s3.py.
+   rf_step_on size fetch : S3RangeFile.seek / tell / readinto / readall for a reader whose size was fixed at open
+               (`size`) and whose ranged GETs are answered by `fetch first last` (None = refused).  The integer
+               kernels -- where a seek lands and when it is refused, when a read issues no request, which byte
+               range it asks for -- are Gen/GenRange.v, REGENERATED from the source on every run; what remains
+               hand-written is the glue the translator checks the shape of (advance the position by the bytes
+               received, return them).  Every ranged GET is logged as (first, last).
+   rf_step content = rf_step_on (zlen content) (server_range content): the reader over an object that does not
+               change while it is read; server_range is what S3 / fakes3 answer to Range: bytes=first-last
+               (the bytes first..min(last,size-1), or 416 when first >= size).
+   file_step : an unbuffered local file (io.FileIO) on the same content -- the specification.
    Definitions only. *)
 From Coq Require Import List ZArith Bool.
+Require Import DS.Gen.GenRange.
 Import ListNotations.
 Open Scope Z_scope.
 
@@ -20,6 +26,10 @@ Inductive rop :=
 | Tell.
 
 Definition wf_rop (o : rop) : Prop := match o with ReadInto n => 0 <= n | _ => True end.
+Definition wf_ropb (o : rop) : bool := match o with ReadInto n => 0 <=? n | _ => true end.
+
+(* io.SEEK_SET / SEEK_CUR / SEEK_END; SeekBad stands for a whence that is none of them *)
+Definition whence_code (w : whence) : Z := match w with SeekSet => 0 | SeekCur => 1 | SeekEnd => 2 | SeekBad => 7 end.
 
 Section Range.
   Context {A : Type}.
@@ -53,26 +63,37 @@ Section Range.
     | Some new => if new <? 0 then (pos, RErr) else (new, RPos new)
     end.
 
-  (* one ranged GET [first, last] at position pos *)
-  Definition get_range (content : list A) (pos last : Z) : Z * robs * list (Z * Z) :=
-    match server_range content pos last with
-    | Some data => (pos + zlen data, RData data, [(pos, last)])
-    | None => (pos, RErr, [(pos, last)])
+  (* S3RangeFile.seek over the regenerated kernel: refused = ValueError, position unchanged *)
+  Definition rf_seek (size pos off : Z) (w : whence) : Z * robs :=
+    match gen_rf_seek pos size off (whence_code w) with
+    | Some (pos', ret) => (pos', RPos ret)
+    | None => (pos, RErr)
     end.
 
-  (* S3RangeFile: state = _pos; _size = the object's size *)
-  Definition rf_step (content : list A) (pos : Z) (o : rop) : Z * robs * list (Z * Z) :=
-    let size := zlen content in
-    match o with
-    | Seek off w => (do_seek size pos off w, [])
-    | Tell => (pos, RPos pos, [])
-    | ReadInto want =>
-      if (want =? 0) || (size <=? pos) then (pos, RData [], [])
-      else get_range content pos (Z.min (pos + want) size - 1)
-    | ReadAll =>
-      if size <=? pos then (pos, RData [], [])
-      else get_range content pos (size - 1)
+  (* the part of readinto / readall after the kernel: no request, or one ranged GET [first, last]; the position
+     advances by the number of bytes RECEIVED *)
+  Definition rf_get (fetch : Z -> Z -> option (list A)) (pos : Z) (r : option (Z * Z)) : Z * robs * list (Z * Z) :=
+    match r with
+    | None => (pos, RData [], [])
+    | Some (first, last) =>
+      match fetch first last with
+      | Some data => (pos + zlen data, RData data, [(first, last)])
+      | None => (pos, RErr, [(first, last)])
+      end
     end.
+
+  (* S3RangeFile: state = _pos; _size = `size`, fixed when the reader was opened *)
+  Definition rf_step_on (size : Z) (fetch : Z -> Z -> option (list A)) (pos : Z) (o : rop) : Z * robs * list (Z * Z) :=
+    match o with
+    | Seek off w => (rf_seek size pos off w, [])
+    | Tell => (pos, RPos pos, [])
+    | ReadInto want => rf_get fetch pos (gen_rf_readinto pos size want)
+    | ReadAll => rf_get fetch pos (gen_rf_readall pos size)
+    end.
+
+  (* the reader over an object that does not change while it is read *)
+  Definition rf_step (content : list A) : Z -> rop -> Z * robs * list (Z * Z) :=
+    rf_step_on (zlen content) (server_range content).
 
   (* a plain file *)
   Definition file_step (content : list A) (pos : Z) (o : rop) : Z * robs :=
@@ -84,14 +105,17 @@ Section Range.
     end.
 
   (* programs: observations, final position, Range requests issued *)
-  Fixpoint run_rf (content : list A) (pos : Z) (prog : list rop) : list robs * Z * list (Z * Z) :=
+  Fixpoint run_rf_on (size : Z) (fetch : Z -> Z -> option (list A)) (pos : Z) (prog : list rop) : list robs * Z * list (Z * Z) :=
     match prog with
     | [] => ([], pos, [])
     | o :: prog' =>
-      let '(pos', ob, rs) := rf_step content pos o in
-      let '(obs, final, rs') := run_rf content pos' prog' in
+      let '(pos', ob, rs) := rf_step_on size fetch pos o in
+      let '(obs, final, rs') := run_rf_on size fetch pos' prog' in
       (ob :: obs, final, rs ++ rs')
     end.
+
+  Definition run_rf (content : list A) : Z -> list rop -> list robs * Z * list (Z * Z) :=
+    run_rf_on (zlen content) (server_range content).
 
   Fixpoint run_file (content : list A) (pos : Z) (prog : list rop) : list robs * Z :=
     match prog with
